@@ -729,8 +729,13 @@ impl Scenario {
 
     pub fn gen_normal(&mut self, r: &mut Rng, w: &Wallet, exclude: &HashSet<CoinID>) -> Option<Transaction> {
         let n = r.range(1, 3) as usize;
-        let inputs = self.pick_inputs(r, w, n, true, exclude);
+        let mut inputs = self.pick_inputs(r, w, n, true, exclude);
         if inputs.is_empty() { return None; }
+        // sometimes a staked output rides along as a later input (must be rejected while the stake lives)
+        if r.chance(1, 10) {
+            let stakes = self.ustate().verif_stakes();
+            if let Some(c) = w.coins.iter().find(|(id, _)| stakes.get_stake(id.txhash).is_some() && !exclude.contains(id)) { inputs.push(c.clone()); self.bump("tx_with_staked_later_input"); }
+        }
         let mut t = Transaction::new(TxKind::Normal);
         t.outputs = self.split_outputs(r, &inputs);
         let in_mel: u128 = inputs.iter().filter(|(_, c)| c.coin_data.denom == Denom::Mel).map(|(_, c)| c.coin_data.value.0).sum();
@@ -897,9 +902,46 @@ impl Scenario {
         m
     }
 
+    /// an ERG mint with a real MelPoW proof of low difficulty; the amount asked is at the acceptance boundary
+    /// (found by bisection on copies of the state), one above it, or far above it
+    pub fn gen_doscmint(&mut self, r: &mut Rng, w: &Wallet, exclude: &HashSet<CoinID>) -> Option<Transaction> {
+        let u = self.ustate().clone();
+        let height = u.verif_height().0;
+        let net = u.verif_network();
+        let min_age = if net == NetID::Mainnet { 100 } else { 1 };
+        let c = w.coins.iter().find(|(id, c)| !exclude.contains(id) && c.coin_data.denom == Denom::Mel && c.coin_data.value.0 > 1_000_000
+            && c.height.0 + min_age <= height && u.verif_stakes().get_stake(id.txhash).is_none()
+            && matches!(self.covs.get(&c.coin_data.covhash).map(|x| &x.kind), Some(CovKind::AlwaysTrue) | Some(CovKind::SigNew(_))))?.clone();
+        let hist = melstf::SmtMapping::<InMemoryCas, BlockHeight, Header>::new(u.verif_history());
+        let seed = hist.get(&c.1.height)?;
+        let difficulty = r.range(6, 12) as u32;
+        let puzzle = tmelcrypt::hash_keyed(seed.hash(), &stdcode::serialize(&c.0).unwrap());
+        let proof = melpow_proof(&puzzle, difficulty as usize);
+        let dest = self.my_addr(r, true);
+        let build = |sc: &mut Scenario, r: &mut Rng, ergs: u128| -> Transaction {
+            let mut t = Transaction::new(TxKind::DoscMint);
+            t.outputs = vec![CoinData { covhash: dest, value: CoinValue(ergs), denom: Denom::Erg, additional_data: Bytes::new() }];
+            t.data = Bytes::from(stdcode::serialize(&(difficulty, proof.clone())).unwrap());
+            sc.finish_tx(r, t, &[c.clone()], 0, 0)
+        };
+        // largest accepted amount, by bisection on the implementation itself
+        let accepted = |sc: &mut Scenario, r: &mut Rng, ergs: u128| -> bool {
+            let t = build(sc, r, ergs);
+            let mut w2 = sc.ustate().clone();
+            catch_unwind(AssertUnwindSafe(|| w2.apply_tx_batch(&[t]).is_ok())).unwrap_or(false)
+        };
+        let (mut lo, mut hi) = (0u128, 1u128 << 40);
+        if !accepted(self, r, 0) { self.bump("mint_not_acceptable"); return Some(build(self, r, 1)); }
+        for _ in 0..42 { let mid = lo + (hi - lo) / 2; if accepted(self, r, mid) { lo = mid } else { hi = mid } if hi - lo <= 1 { break; } }
+        let ask = match r.below(4) { 0 => lo, 1 => lo + 1, 2 => lo / 2, _ => lo.saturating_mul(1000) + 5 };
+        self.bump(if ask <= lo { "mint_within_bound" } else { "mint_above_bound" });
+        Some(build(self, r, ask))
+    }
+
     pub fn gen_tx(&mut self, r: &mut Rng, w: &Wallet, exclude: &HashSet<CoinID>) -> Option<Transaction> {
         let net = self.ustate().verif_network();
         let c = r.below(100);
+        if c >= 96 { if let Some(t) = self.gen_doscmint(r, w, exclude) { return Some(t); } }
         let t = if c < 35 { self.gen_normal(r, w, exclude) }
             else if c < 50 { if net == NetID::Mainnet && r.chance(9, 10) { self.gen_normal(r, w, exclude) } else { Some(self.gen_faucet(r)) } }
             else if c < 65 { self.gen_swap(r, w, exclude) }
